@@ -5,6 +5,6 @@ CONSTANTS
   MaxBlk = 2
   KeepCommittedInCache = FALSE
 VIEW view
-INVARIANTS NoDuplicates HeldIsCached WithinBounds NoReofferCommitted NoReofferStrict
+INVARIANTS NoDuplicates HeldIsCached WithinBounds NoReofferCommitted ResubOnlyAfterFlush
 PROPERTIES RejectsDuplicates
 CHECK_DEADLOCK FALSE
